@@ -347,6 +347,26 @@ class ExtendedKalmanFilter:
                     extra = f"\nExtra: {extra_from_map}"
                 raise ModelConstructionError(f"Mismatched Calibration:{missing}{extra}")
 
+        # Noise has to match the model structure, same as the Python filter
+        if len(process_noise) != self.control_size:
+            raise ModelConstructionError(
+                f"Process noise needs exactly one entry per control. Found {len(process_noise)} entries for {self.control_size} controls"
+            )
+        for key, value in process_noise.items():
+            if value < 0.0:
+                raise ModelConstructionError(
+                    f"Process noise for {key} is negative: {value}"
+                )
+        if set(sensor_models.keys()) != set(sensor_noises.keys()):
+            raise ModelConstructionError(
+                f"Sensor noise keys {sorted(sensor_noises.keys())} do not match sensor model keys {sorted(sensor_models.keys())}"
+            )
+        for key, sensor_model in sensor_models.items():
+            if set(sensor_noises[key].keys()) != set(sensor_model.keys()):
+                raise ModelConstructionError(
+                    f"Sensor noise for {key} does not match the readings of the sensor model"
+                )
+
         self._process_model = BasicBlock(
             statements=self._translate_process_model(state_model),
             indent=4,
@@ -840,6 +860,14 @@ def compile(symbolic_model, calibration_map=None, *, config=None):
 
     if calibration_map is None:
         calibration_map = {}
+
+    common.model_validation(
+        symbolic_model,
+        {},
+        {},
+        extra_validation=config.extra_validation,
+        calibration_map=calibration_map,
+    )
 
     args = _compile_argparse()
 
